@@ -747,6 +747,31 @@ impl<'a> Gen<'a> {
             make_generic_friendly(&mut r);
         }
         self.recvs[id] = r;
+        // a newtype receiver of the same trait around it: `struct Outer(Inner);` hands the whole
+        // element to Inner's implementation (FromDeriveInput and FromAttributes only)
+        if matches!(tr, Trait::DeriveInput | Trait::Attributes) && self.profile.options && self.rng.chance(1, 8) {
+            let outer = self.recvs.len();
+            let generic = self.profile.generic_recv && self.rng.coin();
+            self.recvs.push(Recv {
+                id: outer,
+                tr,
+                rename_all: None,
+                cdefault: Def::None,
+                from_ident: false,
+                post: Post::None,
+                allow_unknown: false,
+                from_word: false,
+                from_none: false,
+                attr_names: vec![],
+                forward: Fwd::None,
+                attrs_field: None,
+                supports: None,
+                magic: vec![],
+                shape: Shape::Newtype(Ty::Recv(id)),
+                generics: if generic { "<T>".to_string() } else { String::new() },
+            });
+            return outer;
+        }
         id
     }
 
